@@ -9,7 +9,7 @@ import re
 import shutil
 import tempfile
 
-from . import memo, pointwise
+from . import alias, memo, pointwise
 from .project import AnalysisError, Project
 
 ALLM = ".*"
@@ -216,6 +216,176 @@ def kernel_pointwise(check):
                  "no reduction or neighbour access applied to an argument-dependent value; built-in example: 6 couplings reported, 2 point-wise kernels and 1 np.all guard silent")
 
 
+# ---------------------------------------------------------------------------------------------
+_ALIAS_EXAMPLE = '''
+class methoddict:
+    def __init__(self, pref=""):
+        self.dict = {}
+    def register(self):
+        def deco(f):
+            self.dict[f.__name__] = f
+            return f
+        return deco
+
+class model:
+    _vardict = methoddict()
+    _bcdict = methoddict("bc_")
+    @_vardict.register()
+    def momentum(self, qdata):
+        return qdata[1]
+    @_vardict.register()
+    def scaled(self, qdata):
+        m = self.momentum(qdata)
+        m *= 2.0
+        return m
+    @_vardict.register()
+    def scaled_ok(self, qdata):
+        m = self.momentum(qdata).copy()
+        m *= 2.0
+        return m
+    @_bcdict.register()
+    def bc_copy(self, dir, data, param):
+        return data
+    def namedBC(self, name, dir, data, param):
+        return (self._bcdict.dict[name])(self, dir, data, param)
+
+class disc:
+    def calc_bc(self):
+        buf = [None] * 3
+        for i in range(3):
+            buf[i] = self.pR[i][0]
+        qL = self.model.namedBC("copy", -1, buf, {})
+        for i in range(3):
+            buf[i] = self.pL[i][5]
+        qR = self.model.namedBC("copy", 1, buf, {})
+        for i in range(3):
+            self.pL[i][0] = qL[i]
+            self.pR[i][5] = qR[i]
+    def calc_bc_ok(self):
+        qL = self.model.namedBC("copy", -1, [self.pR[i][0] for i in range(3)], {})
+        qR = self.model.namedBC("copy", 1, [self.pL[i][5] for i in range(3)], {})
+        for i in range(3):
+            self.pL[i][0] = qL[i]
+            self.pR[i][5] = qR[i]
+'''
+_alias_cache = {}
+_alias_ok = None
+
+
+def alias_analysis(proj):
+    k = id(proj)
+    if k not in _alias_cache:
+        _alias_cache[k] = alias.Analysis(proj)
+    return _alias_cache[k]
+
+
+def alias_example():
+    global _alias_ok
+    if _alias_ok is not None:
+        return
+    tmp = tempfile.mkdtemp(prefix="fdcheck_alias_example_")
+    try:
+        os.makedirs(os.path.join(tmp, "flowdyn"))
+        open(os.path.join(tmp, "flowdyn", "__init__.py"), "w").close()
+        with open(os.path.join(tmp, "flowdyn", "example.py"), "w") as fh:
+            fh.write("import numpy as np\n" + _ALIAS_EXAMPLE)
+        proj = Project(tmp)
+        an = alias.Analysis(proj)
+        got = {q: (sorted(o for o in s.mut if o.startswith("P:")), len(an.clobbers[q])) for q, s in an.summ.items() if q.startswith("example.model.s") or q.startswith("example.disc")}
+        want = {"example.model.scaled": (["P:qdata[]"], 0), "example.model.scaled_ok": ([], 0), "example.disc.calc_bc": ([], 1), "example.disc.calc_bc_ok": ([], 0)}
+        if got != want:
+            raise AnalysisError("ALIAS built-in example: expected %s, got %s" % (want, got))
+        _alias_ok = True
+    finally:
+        shutil.rmtree(tmp, ignore_errors=True)
+
+
+def _model_classes(proj):
+    return [ci for ci in proj.all_classes() if ci.module.short.startswith("modelphy.")]
+
+
+def alias_rules(check):
+    pid, proj = check.pid, check.proj
+    if pid not in ("C01", "C15", "C16", "C17", "C20"):
+        return
+    alias_example()
+    an = alias_analysis(proj)
+    if pid == "C17":
+        n = bad = 0
+        seen = set()
+        for ci in _model_classes(proj):
+            fs = [ci.methods[nm] for nm in ("cons2prim", "prim2cons") if nm in ci.methods]
+            reg = ci.registries.get("_vardict")
+            if reg:
+                fs += list(reg["entries"].values())
+            for f in fs:
+                if f.qualname in seen:
+                    continue
+                seen.add(f.qualname)
+                n += 1
+                for o, (ln, text, via, kind) in an.summ[f.qualname].mut.items():
+                    if o.startswith("P:") and kind == "inplace":
+                        bad += 1
+                        check.violation("VAR-PURE", f.qualname, "evaluating this variable changes its argument in place (`%s`, line %d%s): the field's own data are altered, every later evaluation is wrong"
+                                        % (text, ln, (", through %s" % via) if via else ""), "%s:%d" % (f.module.relpath, ln), key="mutates-arg")
+        if not bad:
+            check.ok("VAR-PURE", "%d conversion / output-variable functions" % n, "none changes (an element of) its argument in place, directly or through the functions it calls; built-in example: 1 in-place change through a returned alias reported, its copying twin silent")
+    if pid in ("C15", "C16"):
+        n = bad = 0
+        for f in proj.all_functions():
+            if f.module.short != "modeldisc" or not f.name.startswith("calc_bc") or f.name.endswith("grad"):
+                continue
+            n += 1
+            for c in an.clobbers[f.qualname]:
+                ln, nm, cl, ctext, text, useln = c
+                bad += 1
+                check.violation("BC-ALIAS", f.qualname, "`%s` (line %d) may be the very list passed to %s (a registered boundary function returns its `data` argument); that list is overwritten at line %d (`%s`) before `%s` is read at line %d"
+                                % (nm, cl, ctext, ln, text, nm, useln), "%s:%d" % (f.module.relpath, ln), key="clobber")
+            if f.cls is not None and f.cls.name.endswith("2dcart"):
+                for o, ln, text, via, kind in an.events[f.qualname]:
+                    if kind == "inplace" and via and via.split(".")[-1].startswith("bc_") and (o.startswith("S:") or o.startswith("P:")):
+                        cls2d = via.split(".")[-2].endswith("2d")
+                        if not cls2d:
+                            continue
+                        bad += 1
+                        check.violation("BC-ALIAS", f.qualname, "the interior face state handed to the boundary function is a view (slice index), and %s changes it in place: `%s`" % (via, text),
+                                        "%s:%d" % (f.module.relpath, ln), key="view")
+                        break
+        check.floor("calc_bc functions", n, 2)
+        if not bad:
+            check.ok("BC-ALIAS", "%d calc_bc functions" % n, "no boundary result is overwritten through its argument list before use, and no boundary function changes a view of the interior state; built-in example: 1 overwritten argument list reported, its fresh-list twin silent")
+    if pid == "C01":
+        bad = n = 0
+        for f in proj.all_functions():
+            if f.module.short == "modeldisc" and f.name == "add_source":
+                n += 1
+                for o, (ln, text, via, kind) in an.summ[f.qualname].mut.items():
+                    if o.startswith("X:") and kind == "inplace":
+                        bad += 1
+                        check.violation("SRC-OWN", f.qualname, "the array returned by a source callable is changed in place (`%s`, line %d): a callable that returns a stored array accumulates the flux balances of earlier evaluations" % (text, ln),
+                                        "%s:%d" % (f.module.relpath, ln), key="src-own")
+        check.floor("add_source functions", n, 2)
+        if not bad:
+            check.ok("SRC-OWN", "%d add_source functions" % n, "source-callable results are only read")
+    if pid == "C20":
+        bad = n = 0
+        for ci in proj.all_classes():
+            if ci.module.short not in ("mesh", "mesh2d", "meshbase"):
+                continue
+            for f in ci.methods.values():
+                if f.name == "__init__":
+                    continue
+                n += 1
+                for o, (ln, text, via, kind) in an.summ[f.qualname].mut.items():
+                    if o.startswith("S:") and kind == "inplace":
+                        bad += 1
+                        check.violation("MESH-FROZEN", f.qualname, "a query method changes the mesh object (`%s`, line %d%s): geometry returned afterwards differs from the constructed partition" % (text, ln, (", through %s" % via) if via else ""),
+                                        "%s:%d" % (f.module.relpath, ln), key="mutates-" + o[2:].split("[")[0].split(".")[0])
+        if not bad:
+            check.ok("MESH-FROZEN", "%d mesh methods" % n, "no method other than the constructors changes in place an array or container held by the mesh (including through arrays returned by other methods)")
+
+
 def run(check):
     check.guarded("STATE-MEMO", "scope of %s" % check.pid, lambda: state_memo(check))
+    check.guarded("ALIAS", "scope of %s" % check.pid, lambda: alias_rules(check))
     check.guarded("KERNEL-POINTWISE", "kernels of %s" % check.pid, lambda: kernel_pointwise(check))
